@@ -42,6 +42,10 @@
  * Number of entries in the per-thread defer queue. Must be power of 2.
  */
 #define DEFER_QUEUE_SIZE	(1 << 12)
+#ifdef URCU_VERIF_DEFER_QUEUE_SIZE
+#undef DEFER_QUEUE_SIZE
+#define DEFER_QUEUE_SIZE URCU_VERIF_DEFER_QUEUE_SIZE
+#endif
 #define DEFER_QUEUE_MASK	(DEFER_QUEUE_SIZE - 1)
 
 /*
